@@ -18,6 +18,7 @@ pub const GEOMS: &[(u16, u8, u32, bool)] = &[
     (512, 128, u32::MAX, true),
     (512, 8, 8_400_000, true),
     (512, 32, 1 << 31, true),
+    // exactly the largest cluster count FAT32 allows (0x0FFFFFF4; highest cluster number 0x0FFFFFF5): FAT size given
     (4096, 1, 0x0FFF_FFF4 + 2 * 262_144 + 32, true),
     (4096, 32, u32::MAX, true),
     (512, 64, u32::MAX, false),
@@ -40,7 +41,7 @@ pub fn large_vol(geom_idx: usize, l: LargeCfg) -> VolCfg {
         pad_sectors: 8,
         status0: 0,
         access_date: false,
-        gen: if by_gen { Some(GenGeom { rsvd: 32, ..Default::default() }) } else { None },
+        gen: if by_gen { Some(GenGeom { rsvd: 32, fatsz: if geom_idx % GEOMS.len() == 4 { 262_144 } else { 0 }, ..Default::default() }) } else { None },
         large: Some(l),
         short_io: 0,
     }
